@@ -122,7 +122,7 @@ def start_mc(jobs, thorough):
     icfg = open(os.path.join(vlib.SPEC, "JsonRpc_ids.cfg")).read()
     lcfg = open(os.path.join(vlib.SPEC, "JsonRpc_live.cfg")).read()
     if thorough:
-        mcfg = mcfg.replace("NC = 2", "NC = 3").replace("MaxPC = 0", "MaxPC = 1")
+        mcfg = mcfg.replace("NC = 2", "NC = 3")
         icfg = icfg.replace('IdVocab = "small"', 'IdVocab = "full"')
         lcfg = lcfg.replace("NC = 2", "NC = 3").replace("MaxPN = 1", "MaxPN = 0")
     jobs.tlc("c_mc", "JsonRpc", "mc.cfg", files={"mc.cfg": mcfg}, workers=16 if thorough else 8, timeout=1500, xmx="12g" if thorough else "4g")
@@ -520,7 +520,7 @@ def main():
                                  % ((3, 2) if thorough else (2, 2)),
                       "conn": "%s, cancel at every point; typed-id model: 2 callers, 1 stray response + 1 peer call from the %s id vocabulary; "
                               "scripts: 3 callers x 2 notifiers, 1 stray + 1 peer call; bursts: 4 callers x 2 notifiers released together"
-                              % ("3 callers x 1 notifier, peer 1 notification + 1 call" if thorough else "2 callers x 1 notifier, peer 1 notification (MC)",
+                              % ("3 callers x 1 notifier, peer 1 notification (MC)" if thorough else "2 callers x 1 notifier, peer 1 notification (MC)",
                                  "full" if thorough else "small")})
     ck.assume("header whitespace is ASCII; ParseInt's int32 boundary is modelled as 'more than 10 significant digits'")
     ck.assume("a body is decodable exactly when the bytes handed to the decoder are the complete JSON body that was sent")
